@@ -35,6 +35,7 @@ const (
 	opForget   = 6 // u        : the cluster IPAM releases it
 	opDeleting = 7 //          : the NodeRuntime object gets a deletion timestamp (it carries a finalizer)
 	opGone     = 8 //          : the NodeRuntime object is removed
+	opIfStatus = 9 // k        : the Node record shows the interface as 0 InUse, 1 Detaching, 2 Deleting, 3 Attaching (a transient cloud status copied by the controller)
 )
 
 func uidStr(u int) string { return fmt.Sprintf("uid-%d", u) }
@@ -53,7 +54,7 @@ func eval(t *testing.T) func(in []*big.Int) []*big.Int {
 			var o [3]int
 			o[0] = k
 			switch k {
-			case opRelease, opAnswer, opBind, opForget:
+			case opRelease, opAnswer, opBind, opForget, opIfStatus:
 				o[1] = d.Int()
 			case opFlush, opSync:
 				o[1], o[2] = d.Int(), d.Int()
@@ -158,6 +159,11 @@ func eval(t *testing.T) func(in []*big.Int) []*big.Int {
 						setUID(o[1], uidStr(o[1]))
 					case opForget:
 						setUID(o[1], "")
+					case opIfStatus:
+						cur := &networkv1beta1.Node{}
+						_ = cl.Get(ctx, client.ObjectKey{Name: "node-1"}, cur)
+						cur.Status.NetworkInterfaces["eni-1"].Status = []string{"InUse", "Detaching", "Deleting", "Attaching"}[o[1]&3]
+						_ = cl.Status().Update(ctx, cur)
 					case opDeleting:
 						rtObj := &networkv1beta1.NodeRuntime{}
 						if err := cl.Get(ctx, client.ObjectKey{Name: "node-1"}, rtObj); err == nil && rtObj.DeletionTimestamp.IsZero() {
@@ -244,8 +250,10 @@ func gen(r *hx.Rand) [][]*big.Int {
 				b.I(opBind, u)
 			case x < 92:
 				b.I(opForget, u)
-			case x < 96:
+			case x < 95:
 				b.I(opDeleting)
+			case x < 98:
+				b.I(opIfStatus, r.Intn(4))
 			default:
 				b.I(opGone)
 			}
